@@ -290,7 +290,7 @@ def r1(ctx):
                         ctx.ob("C01.R1", f"SPECS[{m}] format arity matches {ci.name}", npar == n_el, where,
                                f"{ci.name} has {npar} components, format {fmt!r} packs {n_el}")
         elif as_pair(repo, pmod, v) is not None:
-            p0, p1 = as_pair(repo, pmod, v)
+            p0, p1 = (_row_value(repo, pmod, x) for x in as_pair(repo, pmod, v))
             key = (callable_norm(repo, pmod, p0), callable_norm(repo, pmod, p1))
             if key not in INVERSE_IDIOMS:
                 raise AnalysisError(f"SPECS[{m}] pair {key} is not in the confirmed inverse-idiom table "
@@ -417,6 +417,28 @@ class _Subst(ast.NodeTransformer):
         return clone_ast(self.env[node.id]) if node.id in self.env else node
 
 
+def _memo_wrapper(body, a):
+    """`c = <cache>(...)(param); return c` or `...; return lambda x: c(<expr of x>)`: (param, the lambda or None)"""
+    from ..purity import _is_cache_expr
+    body = [st for st in body if not isinstance(st, (ast.Import, ast.ImportFrom))]
+    if len(body) != 2 or not isinstance(body[0], ast.Assign) or len(body[0].targets) != 1 or \
+            not isinstance(body[0].targets[0], ast.Name) or not isinstance(body[1], ast.Return):
+        return None
+    c, val, ret = body[0].targets[0].id, body[0].value, body[1].value
+    params = [x.arg for x in a.posonlyargs + a.args]
+    if not (isinstance(val, ast.Call) and len(val.args) == 1 and isinstance(val.args[0], ast.Name) and
+            val.args[0].id in params and not val.keywords):
+        return None
+    if not (_is_cache_expr(val.func) if isinstance(val.func, ast.Call) else _is_cache_expr(val)):
+        return None
+    if isinstance(ret, ast.Name) and ret.id == c:
+        return val.args[0].id, None
+    if isinstance(ret, ast.Lambda) and len(ret.args.args) == 1 and isinstance(ret.body, ast.Call) and \
+            isinstance(ret.body.func, ast.Name) and ret.body.func.id == c and len(ret.body.args) == 1 and not ret.body.keywords:
+        return val.args[0].id, ret
+    return None
+
+
 def _row_value(repo, mod, v, depth=0):
     """The expression a SPECS row stands for: module-level names are looked through, and so is a wrapper factory - a
     module-level function whose body is one `return <expr>` (docstring / comments allowed) - with its parameters
@@ -436,6 +458,28 @@ def _row_value(repo, mod, v, depth=0):
                 return v
             body = [st for st in cands[0].node.body if not (isinstance(st, ast.Expr) and isinstance(st.value, ast.Constant))]
             a = cands[0].node.args
+            memo = _memo_wrapper(body, a)
+            if memo is not None:
+                # a memoising wrapper computes what the wrapped callable computes (whether the cache may be shared is
+                # the purity lint's business, C01.P1): look through it, applying the coercion it does on the way in
+                pname, lam = memo
+                params = [x.arg for x in a.posonlyargs + a.args]
+                i = params.index(pname)
+                inner = next((k.value for k in v.keywords if k.arg == pname), v.args[i] if i < len(v.args) else None)
+                if inner is None:
+                    return v
+                if lam is None:
+                    v = inner
+                    continue
+                inner = _row_value(repo, mod, inner, depth)
+                if not (isinstance(inner, ast.Lambda) and len(inner.args.args) == 1 and not inner.args.defaults):
+                    return v
+                new = ast.Lambda(args=clone_ast(lam.args),
+                                 body=_Subst({inner.args.args[0].arg: lam.body.args[0]}).visit(clone_ast(inner.body)))
+                ast.copy_location(new, v)
+                ast.fix_missing_locations(new)
+                v = new
+                continue
             if len(body) != 1 or not isinstance(body[0], ast.Return) or body[0].value is None or a.vararg or a.kwarg:
                 return v
             params = [x.arg for x in a.posonlyargs + a.args]
@@ -559,7 +603,18 @@ def r2_r3(ctx):
         ctx.ob("C01.R2", "reader byte count is tmpl size, overridden by the prefix for VARIABLE", bool(ok), ctx.w(rv, c))
     # unpack/pack are applied with the template variable's type
     for side, f, meth in (("writer", wv, "pack"), ("reader", rv, "unpack")):
-        cs = [c for c in find_calls(f.node, meth) if (ap(c.func) or "").startswith("TemplateDataPacker")]
+        def _is_packer(c, _f=f):
+            recv = (ap(c.func) or "").rsplit(".", 1)[0]
+            if recv.startswith("TemplateDataPacker"):
+                return True
+            # an overridable class attribute whose default is the template packer (`DATA_PACKER = TemplateDataPacker`)
+            parts = recv.split(".")
+            if len(parts) == 2 and parts[0] in ("self", "cls") and _f.cls is not None:
+                dv = repo.class_attr(_f.cls, parts[1])
+                dci = repo.resolve_class(ap(dv) or "", _f.module) if dv is not None else None
+                return dci is not None and any(k.name == "TemplateDataPacker" for k in repo.mro(dci))
+            return False
+        cs = [c for c in find_calls(f.node, meth) if _is_packer(c)]
         ctx.ob("C01.R2", f"{side} uses TemplateDataPacker.{meth} with the template type", len(cs) == 1 and
                len(cs[0].args) == 2 and (alias_path(f.node, cs[0].args[1]) or "").endswith(".type"), f.where)
 
@@ -840,7 +895,7 @@ def r4(ctx):
         ctx.ob("C01.R4", "reader computes ack field length once", len(mults) == 1, cnt_fn.where)
         for mnode in mults:
             other = mnode.right if ap(mnode.left) == cnt_name else mnode.left
-            v = ConstEval(repo, cnt_fn.module).ev(other)
+            v = ConstEval(repo, cnt_fn.module).ev(_deref_class_alias(cnt_fn.node, other))
             ctx.ob("C01.R4", "ack field length multiplier == element width", v == width, ctx.w(cnt_fn, mnode),
                    f"multiplier {v}, calcsize({fmt}) = {width}")
         # order reversals: reversed(...) / [::-1] / insert(0, ...) touching the ack sequence, on either side
@@ -1156,6 +1211,26 @@ def _taken_return(ev, stmts, env):
             return st.value
         elif isinstance(st, ast.Assign) and len(st.targets) == 1 and isinstance(st.targets[0], ast.Name):
             env[st.targets[0].id] = ev.ev(st.value, env)
+        elif isinstance(st, ast.For) and not st.orelse:
+            # a search loop over a constant table (`for known, prefix, fmt in TABLE: if key == known: return ...`):
+            # the first iteration whose body returns decides; the loop targets stay bound in env for the caller
+            seq = ev.ev(st.iter, env)
+            if not isinstance(seq, (tuple, list)):
+                return None
+            for item in seq:
+                if isinstance(st.target, ast.Name):
+                    env[st.target.id] = item
+                elif isinstance(st.target, ast.Tuple) and all(isinstance(e, ast.Name) for e in st.target.elts) and \
+                        isinstance(item, (tuple, list)) and len(item) == len(st.target.elts):
+                    for e, x in zip(st.target.elts, item):
+                        env[e.id] = x
+                else:
+                    return None
+                if any(isinstance(n, (ast.Break, ast.Continue)) for b in st.body for n in ast.walk(b)):
+                    return None
+                r = _taken_return(ev, st.body, env)
+                if r is not None:
+                    return r
     return None
 
 
@@ -1715,6 +1790,44 @@ def r10(ctx):
                "a lazily held body would be parsed later with the new offset against bytes framed with the old one")
 
 
+def _deref_class_alias(fn_node, expr):
+    """`layout = PacketLayout` ... `layout.ACK_LENGTH` -> `PacketLayout.ACK_LENGTH` (a local bound once to a dotted name)"""
+    from .common import assigned_value
+    if isinstance(expr, ast.Attribute) and isinstance(expr.value, ast.Name):
+        al = assigned_value(fn_node, expr.value.id)
+        if len(al) == 1 and isinstance(al[0], (ast.Name, ast.Attribute)) and ap(al[0]):
+            return ast.copy_location(ast.Attribute(value=al[0], attr=expr.attr, ctx=ast.Load()), expr)
+    return expr
+
+
+def _groups_read(repo, f, depth):
+    """group numbers (> 0) read from the match object in f, also in one call `m.group(1, 2, 3)`, and in the helpers the
+    match is handed to (a module function, a method of this class, a constructor classmethod of a record class)"""
+    out = set()
+    for c in find_calls(f.node, "group"):
+        if c.args and all(isinstance(a, ast.Constant) and isinstance(a.value, int) for a in c.args):
+            out |= {a.value for a in c.args if a.value > 0}
+    if depth >= 2:
+        return out
+    params = [a.arg for a in f.node.args.args if a.arg not in ("self", "cls")]
+    for c in calls(f.node):
+        if not any(isinstance(a, ast.Name) and a.id in params for a in c.args):
+            continue
+        tgt = None
+        if isinstance(c.func, ast.Name):
+            cands = [g for g in repo.funcs.get(c.func.id, []) if g.module is f.module and g.cls is None and g.parent_fn is None]
+            tgt = cands[0] if len(cands) == 1 else None
+        elif isinstance(c.func, ast.Attribute) and isinstance(c.func.value, ast.Name):
+            if c.func.value.id in ("self", "cls") and f.cls is not None:
+                tgt = repo.lookup_method(f.cls, c.func.attr)
+            else:
+                ci = repo.resolve_class(c.func.value.id, f.module)
+                tgt = repo.lookup_method(ci, c.func.attr) if ci is not None else None
+        if tgt is not None and tgt is not f:
+            out |= _groups_read(repo, tgt, depth + 1)
+    return out
+
+
 def r12(ctx):
     """The template parser reads the shipped template file through three regular expressions.  They are constants
     of the source, the template is a data file: apply each pattern (stdlib `re`, no repository code runs) to every
@@ -1747,8 +1860,7 @@ def r12(ctx):
     for name, meth in (("MESSAGE_HEADER_RE", "_start_new_template"), ("BLOCK_HEADER_RE", "_start_new_block"),
                        ("BLOCK_DATA_RE", "_start_new_var")):
         f = parser_stage(repo, name, meth)
-        gs = sorted({c.args[0].value for c in find_calls(f.node, "group") if c.args and isinstance(c.args[0], ast.Constant)
-                     and isinstance(c.args[0].value, int) and c.args[0].value > 0})
+        gs = sorted(_groups_read(repo, f, 0))
         ctx.require(bool(gs), f"C01.R12: {meth} reads no match group")
         used[name] = gs
     path = os.path.join(repo.root, TEMPLATE_REL)
@@ -1892,16 +2004,37 @@ def r13(ctx):
     ctx.floor("C01.R13", "hint lists of the name classifier", len(hint_lists), 2)
     # the reader's text-decoding returns and the conditions on the two predicates that guard them
     rf = None
+
+    def decodes_text(f, expr, depth=0):
+        """expr text-decodes bytes: a `.decode(..)` call, a call of a helper (method of the same class / function of the
+        same module) one of whose returns does, or a local of f bound to such an expression"""
+        for c in ast.walk(expr):
+            if isinstance(c, ast.Call) and isinstance(c.func, ast.Attribute) and c.func.attr == "decode":
+                return True
+            if isinstance(c, ast.Call) and depth < 2:
+                tgt = None
+                if isinstance(c.func, ast.Attribute) and isinstance(c.func.value, ast.Name) and c.func.value.id in ("self", "cls") \
+                        and f.cls is not None:
+                    tgt = repo.lookup_method(f.cls, c.func.attr)
+                elif isinstance(c.func, ast.Name):
+                    cs_ = [g for g in repo.funcs.get(c.func.id, []) if g.cls is None and g.parent_fn is None and g.module is f.module]
+                    tgt = cs_[0] if len(cs_) == 1 else None
+                if tgt is not None and tgt is not f and any(
+                        isinstance(r, ast.Return) and r.value is not None and decodes_text(tgt, r.value, depth + 1)
+                        for r in walk(tgt.node)):
+                    return True
+        if isinstance(expr, ast.Name) and depth < 2:
+            vals = [st_.value for st_ in stores(f.node, into_defs=False) if st_.kind == "assign" and st_.path == expr.id
+                    and st_.value is not None]
+            return any(decodes_text(f, v, depth + 1) for v in vals)
+        return False
     cands = [f for gl in repo.funcs.values() for f in gl
              if f.module.rel.startswith("hippolyzer/lib/base/message/")
              and any(isinstance(n, ast.Attribute) and n.attr == "probably_text" for n in walk(f.node))
-             and any(isinstance(r, ast.Return) and r.value is not None and
-                     any(isinstance(c, ast.Call) and isinstance(c.func, ast.Attribute) and c.func.attr == "decode" for c in ast.walk(r.value))
-                     for r in walk(f.node))]
+             and any(isinstance(r, ast.Return) and r.value is not None and decodes_text(f, r.value) for r in walk(f.node))]
     rf = cands[0] if len(cands) == 1 else next((f for f in cands if f.module.rel == DES), None)
     ctx.require(rf is not None, "C01.R13: no reader function consults probably_text")
-    text_rets = [r for r in walk(rf.node) if isinstance(r, ast.Return) and r.value is not None and
-                 any(isinstance(c, ast.Call) and isinstance(c.func, ast.Attribute) and c.func.attr == "decode" for c in ast.walk(r.value))]
+    text_rets = [r for r in walk(rf.node) if isinstance(r, ast.Return) and r.value is not None and decodes_text(rf, r.value)]
     ctx.floor("C01.R13", "text-decoding returns in the reader", len(text_rets), 1)
 
     # once-assigned locals that hold a predicate (is_blob = var.probably_binary) stand for it in the guards
